@@ -846,13 +846,12 @@ Definition documented_helpers : list string :=
   ["jsonencoder"; "topicsbystatus"; "partitioncounts"; "add"; "minus"; "multiply"; "divide";
    "maxlag"; "formattimestamp"].
 
+(* every documented field can be read off the data value (as {{.Field}}) and has the documented type *)
 Definition root_offers (sch : schema) : bool :=
-  match tentry_of sch (sch_root sch) with
-  | Some (mkTentry (DStruct fds) _) =>
-      forallb (fun ft => match assoc (fst ft) fds with Some t => ty_eqb t (snd ft) | None => false end)
-              documented_fields
-  | _ => false
-  end.
+  forallb (fun ft => match ty_chain0 sch [] (root_sty sch) [fst ft] with
+                     | Some st => ty_eqb (s_ty st) (snd ft)
+                     | None => false
+                     end) documented_fields.
 
 Definition helpers_offered (sch : schema) : bool :=
   forallb (fun h => match resolve_fn sch h, helper_of h with
@@ -862,3 +861,66 @@ Definition helpers_offered (sch : schema) : bool :=
                     end) documented_helpers.
 
 Definition offers (sch : schema) : bool := root_offers sch && helpers_offered sch.
+
+(* ------------------------------------------------------------------------------------------ *)
+(* The non-nil facts the shipped templates rely on, and data values built against a schema     *)
+(* ------------------------------------------------------------------------------------------ *)
+
+(* every listed partition is present and carries its first and last commit *)
+Definition p_parts : path := [PField "Result"; PField "Partitions"; PElem].
+Definition burrow_facts : list path :=
+  [p_parts; p_parts ++ [PField "Start"]; p_parts ++ [PField "End"]].
+
+(* A struct value of declared type [tn] built from what is known about some of its fields: strings, integers
+   (given the integer type the schema declares for the field), floats, ready-made values.  Fields the schema
+   declares beyond the known ones get the zero value of their type, as in Go. *)
+Inductive kval := KStr (s : string) | KInt (z : Z) | KFloat (fin : bool) | KVal (v : value).
+Inductive kkind := KKStr | KKInt | KKFloat | KKTy (t : ty).
+
+Definition kind_of (k : kval) : kkind :=
+  match k with KStr _ => KKStr | KInt _ => KKInt | KFloat _ => KKFloat | KVal v => KKTy (type_of v) end.
+
+Definition kbuild (sch : schema) (k : kval) (t : ty) : option value :=
+  match k with
+  | KStr s => if ty_eqb t TStr then Some (VStr s) else None
+  | KInt z => if is_int_ty sch t then Some (VInt t z) else None
+  | KFloat b => if ty_eqb t TFloat then Some (VFloat b) else None
+  | KVal v => if ty_eqb (type_of v) t then Some v else None
+  end.
+
+Definition junk : value := VBool false.
+
+Definition build_field (sch : schema) (known : list (string * kval)) (nt : string * ty) : string * value :=
+  (fst nt, match assoc (fst nt) known with
+           | Some k => match kbuild sch k (snd nt) with Some v => v | None => junk end
+           | None => match zero_of sch (snd nt) with Some z => z | None => junk end
+           end).
+
+Definition fields_of (sch : schema) (tn : string) : list (string * ty) :=
+  match tentry_of sch tn with Some (mkTentry (DStruct fds) _) => fds | _ => [] end.
+
+Definition build_struct (sch : schema) (tn : string) (known : list (string * kval)) : value :=
+  VStruct tn (map (build_field sch known) (fields_of sch tn)).
+
+Definition kind_ok (sch : schema) (kk : kkind) (t : ty) : bool :=
+  match kk with
+  | KKStr => ty_eqb t TStr
+  | KKInt => is_int_ty sch t
+  | KKFloat => ty_eqb t TFloat
+  | KKTy t' => ty_eqb t' t
+  end.
+
+(* the schema declares [tn] as a struct each of whose fields can be filled from values of these kinds *)
+Definition struct_ok (sch : schema) (tn : string) (kinds : list (string * kkind)) : bool :=
+  match tentry_of sch tn with
+  | Some (mkTentry (DStruct fds) _) =>
+      forallb (fun nt => match assoc (fst nt) kinds with
+                         | Some kk => kind_ok sch kk (snd nt)
+                         | None => scalar_zero sch (snd nt)
+                         end) fds
+  | _ => false
+  end.
+
+(* a shipped template by file name; a missing one is a template that never renders *)
+Definition lookup_tmpl (tbl : list (string * tmpl)) (name : string) : tmpl :=
+  match assoc name tbl with Some t => t | None => [NOther "no such template"] end.
